@@ -13,7 +13,7 @@ use crate::system::fake::FakeSystem;
 use crate::system::System;
 use crate::system::util::{write_str_to_file, read_file_to_string};
 use crate::build::{build, clean, BuildParams};
-use crate::printer::EmptyPrinter;
+use crate::printer::{EmptyPrinter, Printer};
 use crate::ticket::TicketFactory;
 use std::collections::BTreeSet;
 
@@ -51,12 +51,21 @@ copy.txt
 
 song.txt
 :
+refrain.txt
 verse.txt
 :
 mycat
+refrain.txt
 verse.txt
-hidden.txt
 song.txt
+;
+mycat
+hidden.txt
+song.chk
+;
+mycat
+verse.txt
+song.log
 :
 
 album.txt
@@ -70,6 +79,19 @@ note.txt
 album.txt
 :
 ";
+
+/*  records the status lines of a build, for the C20 oracle */
+struct RecordingPrinter { banners: Vec<(String, String)>, errors: Vec<String> }
+impl Printer for RecordingPrinter
+{
+    fn print_single_banner_line(&mut self, banner_text : &str, _banner_color : termcolor::Color, path : &str) { self.banners.push((banner_text.trim().to_string(), path.to_string())); }
+    fn print(&mut self, _text : &str) {}
+    fn error(&mut self, text: &str) { self.errors.push(text.to_string()); }
+}
+/*  (targets, first line of the command) of the five rules */
+const RULE_CMDS : [(&[&str], &str); 5] = [
+    (&["stanza.txt"], "mycat verse.txt stanza.txt"), (&["poem.txt"], "mycat stanza.txt refrain.txt poem.txt"), (&["aside.txt", "copy.txt"], "mycat2 note.txt aside.txt copy.txt"),
+    (&["song.txt"], "mycat refrain.txt verse.txt song.txt"), (&["album.txt"], "mycat song.txt note.txt album.txt")];
 
 #[derive(Clone, Copy, Debug, PartialEq)]
 enum Act { VerseA, VerseB, RefrainS, Build, BuildPoem, Clean, CleanStanza, TamperStanza, DeleteStanza, DropCacheEntryOfStanza, HiddenGone, HiddenBack, NoteLikeVerseA, CleanAside }
@@ -156,10 +178,53 @@ fn run_history(h: &Vec<Act>, drop_table: bool) -> Outcome
                 let goal = if *a == Act::BuildPoem { Some("poem.txt") } else { None };
                 let hidden = system.is_file("hidden.txt");
                 let stanza_untouched = stanza_settled.is_some() && stanza_settled == read(&system, "verse.txt") && read(&system, "stanza.txt") == stanza_settled;
-                let result = build(system.clone(), &mut EmptyPrinter::new(), params(goal));
+                let target_stats_before : Vec<Option<(String, std::time::SystemTime, bool)>> = TARGETS.iter().map(|p| stat(&system, p)).collect();
+                let mut printer = RecordingPrinter { banners: vec![], errors: vec![] };
+                let result = build(system.clone(), &mut printer, params(goal));
                 let ok = result.is_ok();
                 verdicts.push(ok);
                 let new_log : Vec<String> = system.get_command_log()[log_before..].to_vec();
+                /*  C20: at most one status per target; 'Built' exactly when the rule's command ran in this build and the rule
+                    succeeded; 'Up-to-date' only for a file left untouched; 'Recovered' only for a file that was put there without
+                    the command; targets of failed or cancelled rules get no success status; after a successful build of
+                    everything every target has its status */
+                {
+                    let failed_song = !hidden && new_log.iter().any(|c| c.starts_with("mycat refrain.txt verse.txt song.txt"));
+                    for (targets, cmd) in RULE_CMDS.iter()
+                    {
+                        let ran = new_log.iter().any(|c| c.starts_with(cmd));
+                        for t in targets.iter()
+                        {
+                            let lines : Vec<&String> = printer.banners.iter().filter(|(_, p)| p == t).map(|(b, _)| b).collect();
+                            let idx = TARGETS.iter().position(|x| x == t).unwrap();
+                            if lines.len() > 1 { complaints.push(("B-build-C20".to_string(), format!("{} status lines for {}: {:?}", lines.len(), t, lines))); }
+                            let failed = (*t == "song.txt" && failed_song) || (*t == "album.txt" && (failed_song || (!hidden && !ran && !ok)));
+                            if failed && !lines.is_empty() && *t == "song.txt" { complaints.push(("B-build-C20".to_string(), format!("{} belongs to the rule that failed and is reported {:?}", t, lines))); }
+                            if failed_song && *t == "album.txt" && !lines.is_empty() { complaints.push(("B-build-C20".to_string(), format!("{} depends on the rule that failed and is reported {:?}", t, lines))); }
+                            for l in lines.iter()
+                            {
+                                match l.as_str()
+                                {
+                                    "Built" => if !ran { complaints.push(("B-build-C20".to_string(), format!("{} reported Built but its rule's command did not run", t))); },
+                                    "Up-to-date" =>
+                                    {
+                                        if ran { complaints.push(("B-build-C20".to_string(), format!("{} reported Up-to-date but its rule's command ran", t))); }
+                                        if stat(&system, t) != target_stats_before[idx] { complaints.push(("B-build-C20".to_string(), format!("{} reported Up-to-date but the file was changed", t))); }
+                                    },
+                                    "Recovered" =>
+                                    {
+                                        if ran { complaints.push(("B-build-C20".to_string(), format!("{} reported Recovered but its rule's command ran", t))); }
+                                        if stat(&system, t).map(|x| x.0) == target_stats_before[idx].clone().map(|x| x.0) && target_stats_before[idx].is_some() { complaints.push(("B-build-C20".to_string(), format!("{} reported Recovered but the file was there with that content before", t))); }
+                                    },
+                                    other => complaints.push(("B-build-C20".to_string(), format!("{} reported {:?} in a finished build", t, other))),
+                                }
+                            }
+                            if ran && !failed && !(*t == "song.txt" && failed_song) && ok && lines.iter().all(|l| l.as_str() != "Built") { complaints.push(("B-build-C20".to_string(), format!("the command of {} ran in a successful build but it is not reported Built", t))); }
+                            if ok && goal.is_none() && lines.is_empty() { complaints.push(("B-build-C20".to_string(), format!("successful build of everything: no status line for {}", t))); }
+                        }
+                    }
+                    if failed_song && goal.is_none() && printer.errors.is_empty() && ok { complaints.push(("B-build-C20".to_string(), "a rule failed and nothing was reported".to_string())); }
+                }
                 /*  C02: a rule already built from these very sources, whose target still holds that output, is not run again --
                     whatever happened to other rules in the meantime (e.g. a build in which another rule failed) */
                 if stanza_untouched && new_log.iter().any(|c| c.starts_with("mycat verse.txt stanza.txt"))
@@ -170,7 +235,7 @@ fn run_history(h: &Vec<Act>, drop_table: bool) -> Outcome
                     everything that does not depend on it is still brought up to date */
                 if goal.is_none()
                 {
-                    if !hidden && new_log.iter().any(|c| c.starts_with("mycat verse.txt hidden.txt song.txt"))
+                    if !hidden && new_log.iter().any(|c| c.starts_with("mycat refrain.txt verse.txt song.txt"))
                     {
                         match &result
                         {
@@ -195,7 +260,7 @@ fn run_history(h: &Vec<Act>, drop_table: bool) -> Outcome
                     /*  C01: from-scratch outputs of the current sources */
                     let verse = read(&system, "verse.txt").unwrap(); let refrain = read(&system, "refrain.txt").unwrap(); let note = read(&system, "note.txt").unwrap();
                     let mut expect = vec![("stanza.txt", verse.clone()), ("poem.txt", format!("{}{}", verse, refrain))];
-                    if goal.is_none() { expect.push(("aside.txt", note.clone())); expect.push(("copy.txt", note.clone())); expect.push(("song.txt", format!("{}(hidden)\n", verse))); expect.push(("album.txt", format!("{}(hidden)\n{}", verse, note))); }
+                    if goal.is_none() { expect.push(("aside.txt", note.clone())); expect.push(("copy.txt", note.clone())); expect.push(("song.txt", format!("{}{}", refrain, verse))); expect.push(("album.txt", format!("{}{}{}", refrain, verse, note))); }
                     for (p, want) in expect.iter()
                     {
                         if read(&system, p).as_ref() != Some(want) { complaints.push(("B-build-C01".to_string(), format!("after a successful build {} holds {:?}, a from-scratch build gives {:?}", p, read(&system, p), want))); }
@@ -254,7 +319,7 @@ fn run_history(h: &Vec<Act>, drop_table: bool) -> Outcome
 fn verif_build_histories()
 {
     let max_len : usize = std::env::var("VERIF_HISTORY_LEN").ok().and_then(|s| s.parse().ok()).unwrap_or(4);
-    let names = ["B-build-C01", "B-build-C02", "B-build-C04", "B-build-C07", "B-build-C08", "B-build-C09", "B-build-C10", "B-build-C18"];
+    let names = ["B-build-C01", "B-build-C02", "B-build-C04", "B-build-C07", "B-build-C08", "B-build-C09", "B-build-C10", "B-build-C18", "B-build-C20"];
     let mut bad = vec![0u64; names.len()]; let mut cases = 0u64;
     for len in 1..=max_len
     {
@@ -308,7 +373,7 @@ fn verif_build_long_histories()
         vec![Build, VerseB, NoteLikeVerseA, Build, Clean, VerseA, Build],
         vec![Build, HiddenGone, VerseB, Build, HiddenBack, Build],
     ];
-    let names = ["B-build-C01", "B-build-C02", "B-build-C04", "B-build-C07", "B-build-C08", "B-build-C09", "B-build-C10", "B-build-C18"];
+    let names = ["B-build-C01", "B-build-C02", "B-build-C04", "B-build-C07", "B-build-C08", "B-build-C09", "B-build-C10", "B-build-C18", "B-build-C20"];
     let mut bad = vec![0u64; names.len()];
     for h in hs.iter()
     {
